@@ -821,6 +821,11 @@ namespace {
       else if (op == "sethome") { auto& e = E(a(0)); if (not e.set_home) throw BadOp{ }; e.set_home(a(1) == "-" ? nullptr : &R(a(1))); L.word("ok"); }
       else if (op == "setinit") { auto& e = E(a(0)); if (not e.set_init) throw BadOp{ }; e.set_init(a(1) == "-" ? nullptr : &X(a(1))); L.word("ok"); }
       else if (op == "settmap") { auto& t = E(a(0)); auto& m = E(a(1)); if (t.tmpl == nullptr or m.mapping == nullptr) throw BadOp{ }; t.tmpl->init = m.mapping; L.word("ok"); }
+      else if (op == "setdef") {
+         // the definition recorded for the whole declaration set (shared master data): another declaration of the same template
+         auto& t = E(a(0)); auto& u = E(a(1)); if (t.tmpl == nullptr or u.tmpl == nullptr) throw BadOp{ };
+         t.tmpl->decl_data.master_data->def = u.tmpl; L.word("ok");
+      }
       else if (op == "setfmap") {
          auto& f = E(a(0)); auto& m = E(a(1)); if (f.fundecl == nullptr or m.mapping == nullptr) throw BadOp{ };
          f.fundecl->data.emplace<1>(m.mapping); L.word("ok");
